@@ -590,12 +590,21 @@ def r_mem_hold(ctx: RuleCtx, col: Collector):
     f = m.resolve_method(c, "_response")
     selfn = m.self_name(f)
     # the attribute that multiplies the returned aggregate
-    rets = [n for n in ast.walk(f.node) if isinstance(n, ast.Return) and n.value is not None]
+    # the scale-factor attribute: written from a call of a strategy object held by the module (self.<obj>(...))
     attrs = set()
-    for r in rets:
-        for x in ast.walk(r.value):
-            if isinstance(x, ast.Attribute) and isinstance(x.value, ast.Name) and x.value.id == selfn:
-                attrs.add(x.attr)
+    strategy = {x.attr for x in ast.walk(f.node) if isinstance(x, ast.Attribute) and isinstance(x.value, ast.Name) and x.value.id == selfn
+                and isinstance(parent(x), ast.Call) and parent(x).func is x and m.resolve_method(c, x.attr) is None}
+    for n in ast.walk(f.node):
+        tgt = n.targets[0] if isinstance(n, ast.Assign) else (n.target if isinstance(n, ast.AugAssign) else None)
+        if isinstance(tgt, ast.Attribute) and isinstance(tgt.value, ast.Name) and tgt.value.id == selfn:
+            v = expand_names(f.node, n.value)
+            if any(isinstance(x, ast.Call) and isinstance(x.func, ast.Attribute) and isinstance(x.func.value, ast.Name) and
+                   x.func.value.id == selfn and x.func.attr in strategy for x in ast.walk(v)):
+                # ... and used as a multiplicative factor of the result
+                if any(isinstance(b, ast.BinOp) and isinstance(b.op, ast.Mult) and any(
+                        isinstance(sd, ast.Attribute) and isinstance(sd.value, ast.Name) and sd.value.id == selfn and sd.attr == tgt.attr
+                        for sd in (b.left, b.right)) for b in ast.walk(f.node)):
+                    attrs.add(tgt.attr)
     writes = []
     for n in ast.walk(f.node):
         tgt = None
@@ -1267,6 +1276,12 @@ def r_alloc_dtype(ctx: RuleCtx, col: Collector):
                                 elif isinstance(x, ast.Attribute) and x.attr == "state":
                                     srcs |= rparams
                         allocs[k] = (srcs, al[1], n)
+            # local aliases of an allocated attribute / local:  buf = self.values; buf[:n] = ...
+            for n in ast.walk(f.node):
+                if isinstance(n, ast.Assign) and len(n.targets) == 1 and isinstance(n.targets[0], ast.Name):
+                    kv = key_of(n.value) if isinstance(n.value, (ast.Name, ast.Attribute)) else None
+                    if kv is not None and kv in allocs and n.targets[0].id not in allocs:
+                        allocs[n.targets[0].id] = allocs[kv]
             for n in ast.walk(f.node):
                 tgt = val = None
                 if isinstance(n, ast.Assign) and isinstance(n.targets[0], ast.Subscript):
